@@ -420,4 +420,176 @@ example : parts [⟨.NUMBER, [49]⟩, ⟨.COLON, []⟩, ⟨.NUMBER, [50]⟩] = n
 example : parts [⟨.PLUS, []⟩, ⟨.STRING, [97]⟩, ⟨.COLON, []⟩, ⟨.GREATER, []⟩, ⟨.EQUAL, []⟩, ⟨.MINUS, []⟩, ⟨.NUMBER, [49]⟩, ⟨.BOOST, [50]⟩, ⟨.STRING, [98]⟩]
     = some [⟨.must, .cmp [97] .ge [45, 49], some [50]⟩, ⟨.should, .str none [98], none⟩] := by decide
 
+/-! ### field scoping, from characters to the clause -/
+
+def colon : R := ⟨58, false, false⟩
+def plus : R := ⟨43, false, false⟩
+
+/-- an escaped term followed by a colon: the STRING token, then the machine goes on from the colon -/
+theorem run_str_escTerm_colon (rs : List R) (buf : Text) (rest : List R) :
+    run { mode := .str, buf := buf, esc := false, dot := false } (escTerm rs ++ colon :: rest)
+      = (⟨.STRING, buf ++ rs.map (·.cp)⟩ :: (run { mode := .op, buf := [58], esc := false, dot := false } rest).1,
+         (run { mode := .op, buf := [58], esc := false, dot := false } rest).2) := by
+  induction rs generalizing buf with
+  | nil =>
+    simp only [escTerm, List.flatMap_nil, List.nil_append, List.map_nil, List.append_nil]
+    have h1 : step { mode := .str, buf := buf, esc := false, dot := false } colon
+        = ({ mode := .op, buf := [58], esc := false, dot := false }, some ⟨.STRING, buf⟩) := by
+      simp [step, colon, handsBack, startStep, fresh]
+    simp only [run, h1, optL, List.singleton_append]
+  | cons r rs ih =>
+    simp only [escTerm, List.flatMap_cons, List.append_assoc] at ih ⊢
+    by_cases hr : reserved.contains r.cp = true
+    · simp only [hr, if_true, List.cons_append, List.nil_append]
+      have h1 : step { mode := .str, buf := buf, esc := false, dot := false } bs
+          = ({ mode := .str, buf := buf, esc := true, dot := false }, none) := by
+        simp [step, bs, handsBack, accum]
+      have h2 : step { mode := .str, buf := buf, esc := true, dot := false } r
+          = ({ mode := .str, buf := buf ++ [r.cp], esc := false, dot := false }, none) := by
+        have hm : r.cp ∈ reserved := by simpa using hr
+        simp [step, accum, unesc, hm]
+      simp only [run, h1, h2, optL, List.nil_append]
+      rw [ih (buf ++ [r.cp])]
+      simp
+    · have hr' : reserved.contains r.cp = false := by simpa using hr
+      obtain ⟨n92, _, n32, n58, n94, n126, _⟩ := not_reserved_ne r.cp hr'
+      simp only [hr', Bool.false_eq_true, if_false, List.cons_append, List.nil_append]
+      have h1 : step { mode := .str, buf := buf, esc := false, dot := false } r
+          = ({ mode := .str, buf := buf ++ [r.cp], esc := false, dot := false }, none) := by
+        simp [step, handsBack, accum, n92, n32, n58, n94, n126]
+      simp only [run, h1, optL, List.nil_append]
+      rw [ih (buf ++ [r.cp])]
+      simp
+
+/-- the first rune of an escaped term, from the start state: it opens a string -/
+theorem start_escTerm (r : R) (rs : List R) (tail : List R) (s0 : LS) (hs0 : s0 = fresh)
+    (h0 : reserved.contains r.cp = true ∨ (r.digit = false ∧ r.space = false)) :
+    run s0 (escTerm (r :: rs) ++ tail)
+      = run { mode := .str, buf := [r.cp], esc := false, dot := false } (escTerm rs ++ tail) := by
+  subst hs0
+  have hsplit : escTerm (r :: rs) = (if reserved.contains r.cp then [bs, r] else [r]) ++ escTerm rs := by
+    simp [escTerm]
+  rw [hsplit]
+  by_cases hr : reserved.contains r.cp = true
+  · simp only [hr, if_true, List.cons_append, List.nil_append, List.append_assoc]
+    have h1 : step fresh bs = ({ mode := .start, buf := [], esc := true, dot := false }, none) := by
+      simp [step, fresh, startStep, bs]
+    have h2 : step { mode := .start, buf := [], esc := true, dot := false } r
+        = ({ mode := .str, buf := [r.cp], esc := false, dot := false }, none) := by
+      have hm : r.cp ∈ reserved := by simpa using hr
+      simp [step, startStep, unesc, hm]
+    simp only [run, h1, h2, optL, List.nil_append]
+  · have hr' : reserved.contains r.cp = false := by simpa using hr
+    obtain ⟨n92, n34, n32, n58, n94, n126, n43, n45, n62, n60, n61⟩ := not_reserved_ne r.cp hr'
+    rcases h0 with h0 | ⟨hd, hs⟩
+    · exact absurd h0 hr
+    simp only [hr', Bool.false_eq_true, if_false, List.cons_append, List.nil_append, List.append_assoc]
+    have h1 : step fresh r = ({ mode := .str, buf := [r.cp], esc := false, dot := false }, none) := by
+      simp [step, fresh, startStep, n92, n34, n58, n94, n126, n43, n45, n62, n60, n61, hd, hs]
+    simp only [run, h1, optL, List.nil_append]
+
+/-- after an operator character, the next rune emits the operator and starts afresh -/
+theorem run_op (buf : Text) (r : R) (rest : List R) :
+    run { mode := .op, buf := buf, esc := false, dot := false } (r :: rest)
+      = (opTok buf :: (run (startStep fresh r) rest).1, (run (startStep fresh r) rest).2) := by
+  simp [run, step, optL]
+
+/-- **`field:term` at the level of characters.**  Written with its reserved characters escaped, a
+field name, a colon and a term lex to STRING COLON STRING and parse to the one clause "term in
+field", optional; with a leading `+` the clause is required. -/
+theorem lex_parse_field_term (f : R) (fs : List R) (t : R) (ts : List R)
+    (hf : reserved.contains f.cp = true ∨ (f.digit = false ∧ f.space = false))
+    (ht : reserved.contains t.cp = true ∨ (t.digit = false ∧ t.space = false)) :
+    lex (escTerm (f :: fs) ++ colon :: escTerm (t :: ts))
+      = ([⟨.STRING, (f :: fs).map (·.cp)⟩, ⟨.COLON, []⟩, ⟨.STRING, (t :: ts).map (·.cp)⟩], false) ∧
+    parts [⟨.STRING, (f :: fs).map (·.cp)⟩, ⟨.COLON, []⟩, ⟨.STRING, (t :: ts).map (·.cp)⟩]
+      = some [⟨.should, .str (some ((f :: fs).map (·.cp))) ((t :: ts).map (·.cp)), none⟩] := by
+  constructor
+  · unfold lex
+    rw [start_escTerm f fs _ fresh rfl hf, run_str_escTerm_colon]
+    have hcons : ∃ x xs, escTerm (t :: ts) = x :: xs ∧ run (startStep fresh x) xs
+        = ([⟨.STRING, (t :: ts).map (·.cp)⟩], false) := by
+      by_cases hr : reserved.contains t.cp = true
+      · have hm0 : t.cp ∈ reserved := by simpa using hr
+        refine ⟨bs, t :: escTerm ts, by simp [escTerm, hm0], ?_⟩
+        have h0 : startStep fresh bs = { mode := .start, buf := [], esc := true, dot := false } := by
+          simp [startStep, fresh, bs]
+        have h2 : step { mode := .start, buf := [], esc := true, dot := false } t
+            = ({ mode := .str, buf := [t.cp], esc := false, dot := false }, none) := by
+          have hm : t.cp ∈ reserved := by simpa using hr
+          simp [step, startStep, unesc, hm]
+        rw [h0]
+        simp only [run, h2, optL, List.nil_append]
+        rw [run_str_escTerm ts [t.cp]]
+        simp
+      · have hr' : reserved.contains t.cp = false := by simpa using hr
+        obtain ⟨n92, n34, n32, n58, n94, n126, n43, n45, n62, n60, n61⟩ := not_reserved_ne t.cp hr'
+        rcases ht with ht | ⟨hd, hs⟩
+        · exact absurd ht hr
+        have hm0 : t.cp ∉ reserved := by simpa using hr'
+        refine ⟨t, escTerm ts, by simp [escTerm, hm0], ?_⟩
+        have h0 : startStep fresh t = { mode := .str, buf := [t.cp], esc := false, dot := false } := by
+          simp [startStep, fresh, n92, n34, n58, n94, n126, n43, n45, n62, n60, n61, hd, hs]
+        rw [h0, run_str_escTerm ts [t.cp]]
+        simp
+    obtain ⟨x, xs, hx, hrun⟩ := hcons
+    rw [hx, run_op, hrun]
+    simp [opTok]
+  · simp [parts, partsF, part, base, fielded]
+
+def space : R := ⟨32, false, true⟩
+
+/-- an escaped term followed by a space: the STRING token, then the machine starts afresh -/
+theorem run_str_escTerm_space (rs : List R) (buf : Text) (rest : List R) :
+    run { mode := .str, buf := buf, esc := false, dot := false } (escTerm rs ++ space :: rest)
+      = (⟨.STRING, buf ++ rs.map (·.cp)⟩ :: (run fresh rest).1, (run fresh rest).2) := by
+  induction rs generalizing buf with
+  | nil =>
+    simp only [escTerm, List.flatMap_nil, List.nil_append, List.map_nil, List.append_nil]
+    have h1 : step { mode := .str, buf := buf, esc := false, dot := false } space
+        = (fresh, some ⟨.STRING, buf⟩) := by
+      simp [step, space, handsBack]
+    simp only [run, h1, optL, List.singleton_append]
+  | cons r rs ih =>
+    simp only [escTerm, List.flatMap_cons, List.append_assoc] at ih ⊢
+    by_cases hr : reserved.contains r.cp = true
+    · simp only [hr, if_true, List.cons_append, List.nil_append]
+      have h1 : step { mode := .str, buf := buf, esc := false, dot := false } bs
+          = ({ mode := .str, buf := buf, esc := true, dot := false }, none) := by
+        simp [step, bs, handsBack, accum]
+      have h2 : step { mode := .str, buf := buf, esc := true, dot := false } r
+          = ({ mode := .str, buf := buf ++ [r.cp], esc := false, dot := false }, none) := by
+        have hm : r.cp ∈ reserved := by simpa using hr
+        simp [step, accum, unesc, hm]
+      simp only [run, h1, h2, optL, List.nil_append]
+      rw [ih (buf ++ [r.cp])]
+      simp
+    · have hr' : reserved.contains r.cp = false := by simpa using hr
+      obtain ⟨n92, _, n32, n58, n94, n126, _⟩ := not_reserved_ne r.cp hr'
+      simp only [hr', Bool.false_eq_true, if_false, List.cons_append, List.nil_append]
+      have h1 : step { mode := .str, buf := buf, esc := false, dot := false } r
+          = ({ mode := .str, buf := buf ++ [r.cp], esc := false, dot := false }, none) := by
+        simp [step, handsBack, accum, n92, n32, n58, n94, n126]
+      simp only [run, h1, optL, List.nil_append]
+      rw [ih (buf ++ [r.cp])]
+      simp
+
+/-- **Clauses are separated by a space**: two escaped terms with a space between them are two STRING
+tokens, and parse to two optional clauses in that order. -/
+theorem lex_parse_two_terms (a : R) (as : List R) (b : R) (bs' : List R)
+    (ha : reserved.contains a.cp = true ∨ (a.digit = false ∧ a.space = false))
+    (hb : reserved.contains b.cp = true ∨ (b.digit = false ∧ b.space = false)) :
+    lex (escTerm (a :: as) ++ space :: escTerm (b :: bs'))
+      = ([⟨.STRING, (a :: as).map (·.cp)⟩, ⟨.STRING, (b :: bs').map (·.cp)⟩], false) ∧
+    parts [⟨.STRING, (a :: as).map (·.cp)⟩, ⟨.STRING, (b :: bs').map (·.cp)⟩]
+      = some [⟨.should, .str none ((a :: as).map (·.cp)), none⟩, ⟨.should, .str none ((b :: bs').map (·.cp)), none⟩] := by
+  constructor
+  · unfold lex
+    rw [start_escTerm a as _ fresh rfl ha, run_str_escTerm_space]
+    have := lex_escTerm b bs' hb
+    unfold lex at this
+    rw [this]
+    simp
+  · simp [parts, partsF, part, base]
+
 end Bleve.QueryString
